@@ -582,12 +582,71 @@ func recursionCases(tier string, yield func(*ConvCase) bool) bool {
 	return true
 }
 
+// ---- two message types with one simple name ---------------------------------------------------------
+
+// SameNameProgram: Order.Item and Refund.Item are different types, both reachable from the root; their fields 1 and 2
+// have the same wire types (a reader using the other type's descriptor does not fail, it delivers wrong members).
+func SameNameProgram() *Program {
+	oi := &Msg{Name: "Item", Fields: []*Field{F("sku", 1, String), F("qty", 2, Int32)}}
+	ri := &Msg{Name: "Item", Fields: []*Field{F("reason", 1, String), F("amount", 2, Sint64), F("d", 3, Double)}}
+	order := &Msg{Name: "Order", Msgs: []*Msg{oi}, Fields: []*Field{FM("item", 1, "Order.Item"), FM("items", 2, "Order.Item").Repeated(), F("n", 3, Int32)}}
+	refund := &Msg{Name: "Refund", Msgs: []*Msg{ri}, Fields: []*Field{FM("item", 1, "Refund.Item"), FM("m", 2, "Refund.Item").MapOf(String)}}
+	t := &Msg{Name: "T", Fields: []*Field{FM("order", 1, "Order"), FM("refund", 2, "Refund")}}
+	f := &File{Path: "main.proto", Pkg: Pkg, Msgs: []*Msg{order, refund, t}, Svcs: []*Service{OneMethodService("T", "T")}}
+	return &Program{Name: "samename", Main: "main.proto", Files: []*File{f}}
+}
+
+func sameNameCases(yield func(*ConvCase) bool) bool {
+	prog := SameNameProgram()
+	for _, which := range []string{"order", "refund", "order+refund"} {
+		which := which
+		c := &ConvCase{Prog: prog, What: "same simple name in two scopes: " + which, Focus: "same-simple-name", Has64: true,
+			Build: func(ref *Ref) protoreflect.Message {
+				root := dynamicpb.NewMessage(ref.Msg(Pkg + ".T"))
+				fs := root.Descriptor().Fields()
+				if strings.Contains(which, "order") {
+					o := root.Mutable(fs.ByName("order")).Message()
+					ofs := o.Descriptor().Fields()
+					it := o.Mutable(ofs.ByName("item")).Message()
+					it.Set(it.Descriptor().Fields().ByName("sku"), protoreflect.ValueOfString("book"))
+					it.Set(it.Descriptor().Fields().ByName("qty"), protoreflect.ValueOfInt32(3))
+					l := o.Mutable(ofs.ByName("items")).List()
+					for i := 0; i < 2; i++ {
+						e := l.NewElement()
+						e.Message().Set(e.Message().Descriptor().Fields().ByName("sku"), protoreflect.ValueOfString(fmt.Sprintf("s%d", i)))
+						e.Message().Set(e.Message().Descriptor().Fields().ByName("qty"), protoreflect.ValueOfInt32(int32(-i-1)))
+						l.Append(e)
+					}
+					o.Set(ofs.ByName("n"), protoreflect.ValueOfInt32(7))
+				}
+				if strings.Contains(which, "refund") {
+					r := root.Mutable(fs.ByName("refund")).Message()
+					rfs := r.Descriptor().Fields()
+					it := r.Mutable(rfs.ByName("item")).Message()
+					it.Set(it.Descriptor().Fields().ByName("amount"), protoreflect.ValueOfInt64(-250))
+					it.Set(it.Descriptor().Fields().ByName("reason"), protoreflect.ValueOfString("broken"))
+					it.Set(it.Descriptor().Fields().ByName("d"), protoreflect.ValueOfFloat64(-1.25))
+					mp := r.Mutable(rfs.ByName("m")).Map()
+					v := mp.NewValue()
+					v.Message().Set(v.Message().Descriptor().Fields().ByName("amount"), protoreflect.ValueOfInt64(499))
+					v.Message().Set(v.Message().Descriptor().Fields().ByName("reason"), protoreflect.ValueOfString("late"))
+					mp.Set(protoreflect.ValueOfString("k").MapKey(), v)
+				}
+				return root
+			}}
+		if !yield(c) {
+			return false
+		}
+	}
+	return true
+}
+
 // ---- scope -----------------------------------------------------------------------------------------
 
 // ScopeGroups lists the groups of the shared conversion scope.
 func ScopeGroups(tier string) []string {
 	g := append([]string{}, valueGroups...)
-	g = append(g, "presence", "jsonnames", "recursion")
+	g = append(g, "presence", "jsonnames", "recursion", "samename")
 	g = append(g, structGroups()...)
 	return g
 }
@@ -605,6 +664,8 @@ func ScopeEnumerate(tier, group string, yield func(*ConvCase) bool) bool {
 		return jsonNameCases(yield)
 	case group == "recursion":
 		return recursionCases(tier, yield)
+	case group == "samename":
+		return sameNameCases(yield)
 	}
 	panic("harness: unknown scope group " + group)
 }
